@@ -77,10 +77,15 @@ static int g_rekey;                /* the endpoint was first configured with OTH
 static char g_fl[400], g_fk[65536 + 16];
 static void former_creds(const char *login, const char *key) {
 	size_t ll = strlen(login), kl = strlen(key);
+	snprintf(g_fl, sizeof g_fl, "former-login"); snprintf(g_fk, sizeof g_fk, "former-key-0123456789");
 	if (g_rekey == 2) { snprintf(g_fl, sizeof g_fl, "%s-x", login); snprintf(g_fk, sizeof g_fk, "%s-staging", key); }
-	else if (g_rekey == 3 && ll > 1 && kl > 1) { snprintf(g_fl, sizeof g_fl, "%.*s", (int)(ll - 1), login); snprintf(g_fk, sizeof g_fk, "%.*s", (int)(kl - 1), key); }
-	else { snprintf(g_fl, sizeof g_fl, "former-login"); snprintf(g_fk, sizeof g_fk, "former-key-0123456789"); }
+	if (g_rekey == 3) {
+		/* each of the two on its own: a one-character value has no proper non-empty prefix */
+		if (ll > 1) snprintf(g_fl, sizeof g_fl, "%.*s", (int)(ll - 1), login);
+		if (kl > 1) snprintf(g_fk, sizeof g_fk, "%.*s", (int)(kl - 1), key);
+	}
 }
+
 #define A_INST 0x1122334455ULL
 #define A_MSG 9ULL
 static int a_hdr_cb(KSI_Header *hdr) {
